@@ -151,6 +151,7 @@ func checkC14(c *Ctx) {
 			name string
 		}
 		var writes []wr
+		imagePre := cacheImage(cache)
 		k := 0
 		for _, v := range cache.ListVendors() {
 			for _, s := range cache.GetVendorSpecs(v) {
@@ -169,6 +170,10 @@ func checkC14(c *Ctx) {
 			}
 		}
 		image0 := cacheImage(cache)
+		if image0 != imagePre {
+			cs.Violation("cache-modified", map[string]string{"op": "writeback-before-any-injection"}, fmt.Sprintf("writing the freshly loaded Specs back with WriteSpec changed the cached Specs/devices:\n%s", firstDiff(imagePre, image0)), map[string]any{"population": p.Describe()})
+			return
+		}
 		nops := 2 + r.Intn(5)
 		var history []string
 		var sig []string
@@ -445,6 +450,10 @@ func checkC14(c *Ctx) {
 				return
 			}
 			c.Count("writebacks", 1)
+			if img := cacheImage(cache); img != image0 {
+				cs.Violation("cache-modified", map[string]string{"op": "writeback"}, fmt.Sprintf("writing the cached Spec %s back with WriteSpec changed the cached Specs/devices:\n%s", w.spec.GetPath(), firstDiff(image0, img)), map[string]any{"population": p.Describe(), "history": history})
+				return
+			}
 		}
 		if hostOps >= 2 {
 			c.Distinct(strings.Join(sig, ""))
